@@ -36,7 +36,8 @@ def gen_typed_loc(rnd: random.Random, nin: int, base: int | None = None):
         if t == "map":
             L = ("map", word(), L, 32)
         else:
-            L = ("arr", L, word() if rnd.random() < 0.7 else ("c", rnd.choice([0, 1, 2, 100])))
+            # (a constant index stays within the 2^16 window in which halmos recognises `hash + offset` constants)
+            L = ("arr", L, ("in", rnd.randrange(nin)) if rnd.random() < 0.6 else ("c", rnd.choice([0, 1, 2, 100])))
         if rnd.random() < 0.15:
             L = ("off", L, rnd.choice([1, 2, 3]))
     return L
@@ -75,6 +76,13 @@ def fam_symstorage(rnd: random.Random, ninputs: int = 10):
         else:
             body += compile_loc(L, rnd, 0, "runtime") + ["SLOAD", ("PUSH", 32 * out), "MSTORE"]
             out += 1
+    if rnd.random() < 0.6:
+        # a symbolic branch (on a bit of the last calldata word) before the final reads: the storage of both
+        # resulting paths is still symbolic, and what one of them stores the other does not see
+        lab = "sfork"
+        L = rnd.choice(locs)
+        body += [("PUSH", 32 * (nin - 1)), "CALLDATALOAD", ("PUSH", 8), "AND", ("PUSHL", lab), "JUMPI"]
+        body += [("PUSH", 0x5A)] + compile_loc(L, rnd, 0, "runtime") + ["SSTORE", ("LABEL", lab)]
     for L in locs:
         body += compile_loc(L, rnd, 0, "runtime") + ["SLOAD", ("PUSH", 32 * out), "MSTORE"]
         out += 1
@@ -108,4 +116,5 @@ def fam_symstorage(rnd: random.Random, ninputs: int = 10):
             inputs.append({nm: rnd.choice([0, 1, 2, 3]) for nm in names})
         else:
             inputs.append({nm: rnd.choice([0, 1, 143, 2**160 - 1, 2**255, rnd.getrandbits(256)]) for nm in names})
+    inputs.append({nm: 8 + k for k, nm in enumerate(names)})  # bit 3 set: the storing side of the final branch
     return prog, inputs
